@@ -20,6 +20,12 @@ def one(pid):
         stable = names if stable is None else (stable & names)
         print(pid, 'seed', seed, r['obligations'], r['discharged'], r['undecided'],
               len(r['violations']), r['errors'][:2], file=sys.stderr)
+    # obligations on paths the contract declares optional (e.g. an error the property does not ask for: the clause
+    # constrains the path while it exists, its disappearance is not a loss)
+    from .pyvc.spec import REGISTRY
+    for key, c in REGISTRY.items():
+        for frag in (c.opts or {}).get('optional_obligations', ()):
+            stable = {n for n in stable if not (n.startswith(key + '[') and ('::' + frag) in n)}
     print(json.dumps(sorted(stable)))
 
 
